@@ -35,6 +35,10 @@ def Rand.next (r : Rand) : UInt32 × Rand :=
     let s := r.lcg * 1664525 + 1013904223
     (s >>> 1, { r with lcg := s, calls := r.calls + 1 })
 
+def Rand.skip (r : Rand) : Nat → Rand
+  | 0 => r
+  | n + 1 => (r.next.2).skip n
+
 /-! ## constants of map.go -/
 
 def emptyRest : UInt8 := 0
@@ -94,8 +98,11 @@ deriving Repr, DecidableEq
 structure Ops (K : Type) where
   /-- hasher on keys with `k == k`, under seed `hash0` -/
   hash : UInt32 → K → UInt64
-  /-- hasher on keys with `k != k` (NaN inside): consumes one `fastrand` value -/
-  nanHash : UInt32 → K → UInt32 → UInt64
+  /-- hasher on keys with `k != k` (NaN inside): consumes `nanCount k` `fastrand` values, in this order (one per
+      NaN component: a complex key with two NaN parts draws two) -/
+  nanHash : UInt32 → K → List UInt32 → UInt64
+  /-- number of `fastrand` calls the hasher makes for a `k != k` key -/
+  nanCount : K → Nat
   eq : K → K → Bool
   /-- the hasher panics (`interhash` on a dynamic type without `Equal`) -/
   unhashable : K → Bool
@@ -136,13 +143,21 @@ def HMap.fastrand (h : HMap K V) : UInt32 × HMap K V :=
   let (v, r) := h.rand.next
   (v, { h with rand := r })
 
+/-- `n` consecutive `fastrand()` values -/
+def HMap.fastrands (h : HMap K V) : Nat → List UInt32 × HMap K V
+  | 0 => ([], h)
+  | n + 1 =>
+    let (v, h1) := h.fastrand
+    let (vs, h2) := h1.fastrands n
+    (v :: vs, h2)
+
 /-- `t.Hasher(key, seed)` -/
 def hashKey (o : Ops K) (seed : UInt32) (k : K) (h : HMap K V) : Except Err (UInt64 × HMap K V) :=
   if o.unhashable k then .error .unhashable
   else if o.eq k k then .ok (o.hash seed k, h)
   else
-    let (x, h') := h.fastrand
-    .ok (o.nanHash seed k x, h')
+    let (xs, h') := h.fastrands (o.nanCount k)
+    .ok (o.nanHash seed k xs, h')
 
 /-! ## makemap -/
 
@@ -617,7 +632,7 @@ def MapRef.rand : MapRef K V → Rand
 def nilProbe (o : Ops K) (r : Rand) (k : K) : Except Err Rand :=
   if o.hashMightPanic then
     if o.unhashable k then .error .unhashable
-    else if o.eq k k then pure r else pure r.next.2
+    else if o.eq k k then pure r else pure (r.skip (o.nanCount k))
   else pure r
 
 /-- `MakeMap(t, hint)` -/
